@@ -75,7 +75,8 @@ Theorem C01_duplicates_only_by_retry :
 Proof. exact C01_duplicates_only_by_retry_proof. Qed.
 Print Assumptions C01_duplicates_only_by_retry.
 
-(* Nothing of a rejected call (too large, topic conflict, metadata failure, closed) is ever sent. *)
+(* Nothing of a rejected call (too large, topic conflict, metadata failure, closed — at
+   enter() or, when Close ran in between, at batchMessages) is ever sent. *)
 Theorem C01_rejected_never_sent :
   forall cfg ls s, run (step cfg) init ls = Some s ->
   forall c cl, nth_error (s_calls s) c = Some cl -> rejected cl = true ->
